@@ -118,7 +118,8 @@ package kvql
 //@   ensures[C05] entry: have == (c.EnableCache && has(c.FieldChunkKeyCaches, ckOf(val(name), val(key)))) && (have ==> chunk == c.FieldChunkKeyCaches[ckOf(val(name), val(key))])
 //@ func (c *ExecuteCtx) SetChunkFieldResult(name string, key []byte, chunk []any)
 //@   props C05
-//@   requires c != nil && wfCtxB(c)
+//@   requires c != nil
+//@   requires[C05] wf: wfCtxB(c)
 //@   assigns mapof(c.FieldChunkKeyCaches), mapof(c.FieldChunkCaches)
 //@   ensures[C05] stored: c.EnableCache ==> has(c.FieldChunkKeyCaches, ckOf(val(name), val(key))) && (!old(has(c.FieldChunkKeyCaches, ckOf(val(name), val(key)))) ==> c.FieldChunkKeyCaches[ckOf(val(name), val(key))] == chunk)
 //@   ensures[C05] others: forall q B :: q != ckOf(val(name), val(key)) || !c.EnableCache || old(has(c.FieldChunkKeyCaches, q)) ==> has(c.FieldChunkKeyCaches, q) == old(has(c.FieldChunkKeyCaches, q)) && c.FieldChunkKeyCaches[q] == old(c.FieldChunkKeyCaches[q])
